@@ -5,12 +5,19 @@ import os
 
 V = os.path.dirname(os.path.dirname(os.path.abspath(__file__)))
 rows = []
+harmless = []
 for d in sorted(glob.glob(os.path.join(V, 'seeded', '*'))):
     mp = os.path.join(d, 'meta.json')
     if not os.path.exists(mp):
         continue
     m = json.load(open(mp))
     ch = m.get('our_checks') or {}
+    if m.get('harmless'):
+        res = []
+        for p, c in ch.items():
+            res.append(f"{p}: " + ('silent' if c['exit'] == 0 else ('FALSE ALARM (failing input reported): ' + ', '.join(map(str, c['classes'][:3])) if c['with_failing_input'] else 'proof obligation / correspondence broken, reported with no-failing-input-found')))
+        harmless.append((os.path.basename(d), m.get('breaks_property'), (m.get('summary') or '').replace('\n', ' ')[:260], ' / '.join(res)))
+        continue
     det = []
     for p, c in ch.items():
         if c['exit'] == 1:
@@ -32,4 +39,14 @@ with open(os.path.join(V, 'seeded', 'README.md'), 'w') as f:
     hit = sum(1 for r in rows if 'NOT detected' not in r[4])
     fi = sum(1 for r in rows if 'failing input;' in r[4])
     f.write(f'\n{n} changes stored; {hit} detected by the property\'s own check, {fi} of them with a concrete failing input.\n')
-print(len(rows), 'rows')
+    if harmless:
+        f.write('\n## Behaviour-preserving rewrites (the property still holds; the demo passes on both trees)\n\n'
+                'Expected: the check stays silent, or a proof obligation / correspondence breaks and, no failing input '
+                'existing, the VIOLATION line ends with `no-failing-input-found`.  A reported failing input would be a false alarm.\n\n')
+        f.write('| id | property | rewrite | our check |\n|---|---|---|---|\n')
+        for r in harmless:
+            f.write('| ' + ' | '.join(str(x).replace('|', '\\|') for x in r) + ' |\n')
+        sil = sum(1 for r in harmless if r[3].endswith('silent') and 'FALSE' not in r[3] and 'broken' not in r[3])
+        fa = sum(1 for r in harmless if 'FALSE ALARM' in r[3])
+        f.write(f'\n{len(harmless)} rewrites stored; {sil} silent, {len(harmless) - sil - fa} broken-obligation only, {fa} false alarms.\n')
+print(len(rows), 'rows', len(harmless), 'harmless')
